@@ -13,6 +13,13 @@ pub struct LifePlan {
     pub oneshot: bool,
     pub checks: usize,
     pub crash_at: Option<usize>,
+    /// wall clock set to this value (ns from the epoch) when the life starts (time passes / clock is reset between boots)
+    pub wall_at_start: Option<i128>,
+}
+impl LifePlan {
+    pub fn new(oneshot: bool, checks: usize, crash_at: Option<usize>) -> LifePlan {
+        LifePlan { oneshot, checks, crash_at, wall_at_start: None }
+    }
 }
 
 pub struct Hist {
@@ -32,6 +39,10 @@ pub fn run_history(script: Script, lives: &[LifePlan]) -> Hist {
         {
             let mut g = lock(&w);
             g.crash_at = lp.crash_at.map(|k| g.interactions + k);
+            if let Some(w) = lp.wall_at_start {
+                g.wall_ns = w;
+                g.log.now = (g.wall_ns, g.mono_ns);
+            }
         }
         let mut m = Machine::build(&w, lp.oneshot);
         let end = run_eager(&mut m, StopSpec { checks: lp.checks, max_polls: 20_000 });
